@@ -1026,6 +1026,22 @@ class ExprMixin:
     def ev_ListComp(self, e):
         return self.comprehension(e, "list")
 
+    def ev_DictComp(self, e):
+        """{k: v for x in seq if c}: the key and value expressions are evaluated per element as a list comprehension
+        of pairs (reads, effects and raise sites are recorded); the resulting mapping is opaque: look-ups yield
+        uninterpreted data named after the mapping"""
+        import ast as _ast
+        pair = _ast.Tuple(elts=[e.key, e.value], ctx=_ast.Load())
+        lc = _ast.ListComp(elt=pair, generators=e.generators)
+        _ast.copy_location(lc, e)
+        _ast.fix_missing_locations(lc)
+        self.comprehension(lc, "list")
+        o = self.alloc("dict", True, self.fresh_name("dictcomp"))
+        h = self.hobj(o)
+        h.spec = "kwargs"
+        h.attrs["**"] = Sym(h.path, None)
+        return o
+
     def ev_SetComp(self, e):
         return self.comprehension(e, "set")
 
